@@ -6,7 +6,7 @@ func init() {
 		if tier == "thorough" {
 			n = 1500
 		}
-		return runHistories("SEQ", "SeqCheck", "histcase", "seq_run", seed, n, func(r *rng, i int) seqOpts {
+		return runHistories("SEQ", "HistChecks", "histcase", "all3_run", seed, n, func(r *rng, i int) seqOpts {
 			big := r.chance(1, 3)
 			bs := 256
 			if big {
